@@ -188,6 +188,19 @@ func MergerLoops(p *load.Prog, r *oblig.Report, rule string) {
 			if id, ok := call.Fun.(*ast.Ident); ok && id.Name == "append" && strings.HasSuffix(lt, "[]*github.com/openfga/api/proto/openfga/v1.TypeDefinition") {
 				return "accept"
 			}
+			// conflicts = append(conflicts, <one error>): a helper that collects the conflicts of its items in a list
+			// of errors, which its caller hands to the accumulator
+			if id, ok := call.Fun.(*ast.Ident); ok && id.Name == "append" && len(call.Args) == 2 && !call.Ellipsis.IsValid() {
+				if tv, ok := info.Types[as.Lhs[0]]; ok {
+					if sl, ok := tv.Type.Underlying().(*types.Slice); ok {
+						et := sl.Elem()
+						errT := types.Universe.Lookup("error").Type().Underlying().(*types.Interface)
+						if types.Implements(et, errT) {
+							return "error"
+						}
+					}
+				}
+			}
 		}
 		switch l := as.Lhs[0].(type) {
 		case *ast.IndexExpr:
